@@ -254,6 +254,18 @@ CHECKS["C07"] = dict(
          "(autograd evaluates once).",
     design_ref="DESIGN.md section 5 C07", category="fault_enumeration")
 
+CHECKS["C08"] = dict(
+    technique="KgEval.tla (reference semantics of the numeric core, evaluated by TLC on every generated program x binding) as oracle; "
+              "every program executed by one interpreter per backend (numpy, torch cpu) and the two results compared with each other "
+              "(shape, integer/real kind, elements to single precision, written forms read back)",
+    text="175 programs of the numeric core grammar (quick; thorough ~900): all depth-1 families (12 dyads x 5 operand shapes, monads, 12 "
+         "reductions/scans, take/drop/rotate/index/join, each), programs reading an operand twice, seeded deeper programs x 12 binding "
+         "classes (integer, negative and real scalars, integer/real vectors and matrices, vector with scalar): whenever both backends "
+         "return the values agree; programs of the compilable grammar must be accepted by both.",
+    note="Trusted: TLC/KgEval (used to name the deviating backend), the comparison tolerance 2e-5. One-sided failures outside the compilable "
+         "grammar are counted, not judged. Two open findings (negative integer exponents, kind of a single-row divide scan).",
+    design_ref="DESIGN.md section 5 C08", category="exploration")
+
 NOT_YET = {}
 
 
